@@ -147,7 +147,8 @@ theorem spendCommit_ok {a : Account} {wt : Nat} {oi : Option Nat} {mods : List M
       (spendCommit a wt oi mods tx best f).account = some (applyMods a (mods ++ [.heightHint best, .latestTx])) ∧
       (spendCommit a wt oi mods tx best f).trace
         = pre ++ [.storeWrite (applyMods a (mods ++ [.heightHint best, .latestTx])), .publish tx] ∧
-      pre.length ≤ 1 ∧ ∀ e ∈ pre, e.isModify = true := by
+      pre.length = (if wt = wt_multiSigWitness ∨ wt = wt_muSig2Taproot then 1 else 0) ∧
+      ∀ e ∈ pre, e.isModify = true := by
   unfold spendCommit at h ⊢
   simp only [] at h ⊢
   split at h
@@ -159,9 +160,10 @@ theorem spendCommit_ok {a : Account} {wt : Nat} {oi : Option Nat} {mods : List M
       · rename_i h1 h2 h3
         simp only [h1, h2, h3, if_false]
         refine ⟨_, rfl, rfl, rfl, ?_, ?_⟩
-        · split
-          · split <;> simp
-          · simp
+        · by_cases hc : wt = wt_multiSigWitness ∨ wt = wt_muSig2Taproot
+          · simp only [hc, decide_true, if_true]
+            split <;> simp
+          · simp [hc]
         · intro e he
           split at he
           · split at he <;> simp at he <;> subst he <;> rfl
@@ -231,7 +233,8 @@ theorem spendAccount_ok {so : ScriptOf} {a : Account} {action : Action} {tx : Tx
       (spendAccount so a action tx wt mods best f).trace
         = pre ++ [.storeWrite (applyMods a (mods' ++ [.heightHint best, .latestTx])),
                   .publish { tx with lockTime := lock }] ∧
-      pre.length ≤ 1 ∧ ∀ e ∈ pre, e.isModify = true := by
+      pre.length = (if wt = wt_multiSigWitness ∨ wt = wt_muSig2Taproot then 1 else 0) ∧
+      ∀ e ∈ pre, e.isModify = true := by
   unfold spendAccount at h ⊢
   split at h
   · simp [refuse] at h
@@ -370,6 +373,7 @@ theorem withdraw_inv {so : ScriptOf} {a : Account} {outputs : List TxOut} {rate 
     {nv : Nat} {f : Faults} (h : (withdraw so a outputs rate best eh nv f).refusal = none) :
     a.state = StateOpen ∧ a.version ≤ nv ∧ ∃ ne v, optExpiry eh best = .ok ne ∧
       valueAfterAccountUpdate a.value outputs (determineWitnessType a best) rate = .ok v ∧
+      (createNewAccountOutput so a v ne nv).1.script ∉ outputs.map (·.script) ∧
       withdraw so a outputs rate best eh nv f
         = spendAccount so a .withdraw (createSpendTx so a ((createNewAccountOutput so a v ne nv).1 :: outputs))
             (determineWitnessType a best) ((createNewAccountOutput so a v ne nv).2 ++ [.state StatePendingUpdate])
@@ -388,8 +392,18 @@ theorem withdraw_inv {so : ScriptOf} {a : Account} {outputs : List TxOut} {rate 
         split at h
         · simp [refuse] at h
         · rename_i v hvau
-          refine ⟨by simpa using hs, by omega, ne, v, hne, hvau, ?_⟩
-          simp [hs, hv, hne, hvau]
+          split at h
+          · simp [refuse] at h
+          · rename_i hown
+            have hfact : withdrawRefusesOwnScript = true := by decide
+            refine ⟨by simpa using hs, by omega, ne, v, hne, hvau, ?_, ?_⟩
+            · simp only [hfact, true_and, List.any_eq_true, decide_eq_true_eq, not_exists, not_and] at hown
+              intro hm
+              obtain ⟨o, ho, hs'⟩ := List.mem_map.mp hm
+              exact hown o ho hs'
+            · simp [hs, hv, hne, hvau]
+              intro _ x hx hsx
+              exact absurd ⟨hfact, List.any_eq_true.mpr ⟨x, hx, by simpa using hsx⟩⟩ hown
 
 theorem renew_inv {so : ScriptOf} {a : Account} {newExpiry : UInt32} {rate : Int} {best : UInt32}
     {nv : Nat} {f : Faults} (h : (renew so a newExpiry rate best nv f).refusal = none) :
